@@ -712,7 +712,9 @@ PROPS["C18"] = dict(
          "busy and end-of-life connections via a preset wire id; https over h2 and http/1.1; h3; quic), then Close, "
          "Close, in-flight exchanges, a new exchange on the upstream and on each leg of a udp upstream, sockets of "
          "the process (Opt.Control + /proc/self/fd) and connections still open at the server; compared with the "
-         "composite model (Net/ShutdownOwn.v); "
+         "composite model (Net/ShutdownOwn.v); TLS / QUIC handshakes that fail on their own (certificate untrusted / "
+         "wrong name / expired: step hf, hs=) on tls, tls+pipeline, https, h3, quic upstreams, garbage collection off, "
+         "the fake server waits for the client's FIN: no socket of a connection that never became usable is left; "
          "startcfg: configurations as item lists (metrics, 10 upstream kinds, domain sets, rules, cache, 8 listener "
          "kinds) with one fault from the catalogue of configuration errors (duplicate / missing tag, missing addr, "
          "unknown scheme / protocol, metrics registration failure, port in use, bad address, no / half / unreadable / "
@@ -720,7 +722,8 @@ PROPS["C18"] = dict(
          "file, bad redis url) at every kind, first in the list and behind components that already hold sockets or "
          "goroutines; one child process per case, run() three times: error reported, sockets / other fds / goroutines "
          "left over per run (garbage collection off so that unreachable sockets stay visible); a few through the real "
-         "binary (exit status); 'address in use' with the address held by ANOTHER INSTANCE of the router (a second "
+         "binary (exit status); the cache tiers none / memory / redis / both against a fake redis in the child (close and a "
+         "failing later item leave no connection to it); 'address in use' with the address held by ANOTHER INSTANCE of the router (a second "
          "run() in the process, the real binary twice) for the metrics endpoint and every listener kind incl. udp "
          "with threads unset / 1 / 2, with and without socket.so_reuseport; valid configurations closed while a "
          "client is connected / in the middle of a TLS handshake / of a request on each closable endpoint (metrics, "
